@@ -6,6 +6,7 @@ import z3
 
 from . import bridge as bridge_mod
 from . import driver
+from . import cliagree
 from .checks_common import generic_replay
 from .fol import *
 from .sem import Ctx, fol_preds, fol_size, free_vars
@@ -95,6 +96,10 @@ def generate(tier, seed):
             a, b, c = rnd.choice(d2), rnd.choice(d1), rnd.choice(d2)
             d4.append((rnd.choice(BIN), (rnd.choice(BIN), a, b), neg(c)))
         items += [{'family': 'depth4-seeded', 'formula': f} for f in d4]
+    for f in (d1[::9] + d2[::300] + names[::20] + tiny[::150])[:80]:
+        fv = sorted(free_vars(f))
+        g = forall([var(n, {'g': 'g', 'i': 'i', 's': 's'}[s_]) for (n, s_) in fv], f) if fv else f
+        items.append({'family': 'cli-agreement', 'formula': g, 'cli': True})
     return items
 
 
@@ -133,6 +138,9 @@ def vc(f, g, copies, wrong_ref=None):
 def check_item(item):
     b = bridge_mod.get()
     f = item['formula']
+    if item.get('cli'):
+        r = cliagree.gamma(b, item['family'], render(f), f)
+        return [r] if r else []
     req = ('gamma', f)
     g = b.call(*req)[0]
     preds = sorted(fol_preds(f))
@@ -211,7 +219,7 @@ def replay(r):
 
 def describe(tier):
     return {
-        'rule': 'every formula over 5 atoms (p, q(X), X<3, #false, #true) and all connectives/quantifiers to depth 2, their unary wrappers and left-nested implications/equivalences at depth 3; same-arity pairs from a pool of names that are each other\'s here/there copies; formulas enumerated bounded-exhaustively (depth<=2 over the listed atoms/connectives/quantifier '
+        'rule': 'CLI agreement: 80 closed formulas through `anthem translate --with gamma` must print/save byte for byte what the library call returns; every formula over 5 atoms (p, q(X), X<3, #false, #true) and all connectives/quantifiers to depth 2, their unary wrappers and left-nested implications/equivalences at depth 3; same-arity pairs from a pool of names that are each other\'s here/there copies; formulas enumerated bounded-exhaustively (depth<=2 over the listed atoms/connectives/quantifier '
                 'blocks, plus seeded depth 3-4 and a predicate-name pool); one obligation per formula; distinct by '
                 'S-expression of the input; non-trivial = contains at least one connective or quantifier',
         'functions': ['translating::classical_reduction::gamma::{Gamma for Formula, Here, There, prepend_predicate}',
